@@ -927,6 +927,9 @@ class LTLayoutContainer(LTContainer[LTComponent]):
                     return (1, -box.y0, box.x0)
 
             textboxes.sort(key=getkey)
+            assigner = IndexAssigner()
+            for textbox in textboxes:
+                assigner.run(textbox)
         else:
             self.groups = self.group_textboxes(laparams, textboxes)
             assigner = IndexAssigner()
